@@ -4,7 +4,7 @@
 (* reference decoder (C02 direction 1), exact time accessors (C15), and    *)
 (* the key-type policy on identities embedded in them (C09).               *)
 (***************************************************************************)
-EXTENDS J_Struct
+EXTENDS J_Struct, Caps
 
 PairsMatch(ap, mp) ==
   Len(ap) = Len(mp) /\ \A i \in 1..Len(mp) : ap[i][1] = EncString(mp[i][1]) /\ ap[i][2] = EncString(mp[i][2])
@@ -52,6 +52,34 @@ JRAddrAcc(fn, in, rr, cls) ==
   LET r == RefRouterAddress(in) IN
   << R("C02", "router_address_fields", r.ok /\ rr.ok, RAddrMatches(rr.acc, in, r), cls) >>
 
+\* extension family X01 (not a listed property): the capability / version / transport queries as functions of the decoded options
+KHostOpt == << 104, 111, 115, 116 >>
+JRInfoQueries(in, r, a, cls) ==
+  LET c == OptVal(r.optPairs, KCaps)
+      v == OptVal(r.optPairs, KVersion)
+      AddrEnd(i) == IF i < r.naddr THEN r.addrStarts[i + 1] ELSE r.addrEnd
+      ra == [i \in 1..r.naddr |-> LET ab == Slice(in, r.addrStarts[i], AddrEnd(i) - r.addrStarts[i]) IN
+                                   [b |-> ab, r |-> RefRouterAddress(ab)]]
+      styles == [i \in 1..r.naddr |-> Slice(ra[i].b, 10, ra[i].r.styleEnd - 10)]   \* content bytes of the style string
+      fam(i) == LET h == OptVal(ra[i].r.m.pairs, KHostOpt) IN IF Len(h) = 0 THEN "" ELSE ParseIP(h).fam
+      bw == BandwidthCategory(c)
+      q == a.q IN
+  << R("X01", "floodfill_iff_f", TRUE, q.floodfill = IsFloodfill(c), cls),
+     R("X01", "congestion_flags_iff_D_E_G", TRUE,
+       q.medium = IsMediumCongested(c) /\ q.high = IsHighCongested(c) /\ q.rejecting = IsRejectingTunnels(c) /\ q.uncongested = UnCongested(c), cls),
+     R("X01", "reachable_iff_R_and_not_U", TRUE, q.reachable = Reachable(c), cls),
+     R("X01", "bandwidth_category_is_first_class_letter", TRUE, q.bw = bw, cls),
+     R("X01", "bandwidth_predicates_agree_with_category", TRUE,
+       q.bwflags = << bw = << 76 >>, bw = << 77 >>, bw = << 78 >>, bw = << 79 >>, bw = << 80 >>, bw = << 88 >> >>, cls),
+     R("X01", "supports_ntcp2_ssu2_by_style", TRUE, q.ntcp2 = SupportsStyle(styles, NTCP2) /\ q.ssu2 = SupportsStyle(styles, SSU2), cls),
+     R("X01", "has_ip_family_of_literal_hosts", TRUE,
+       /\ (\E i \in 1..r.naddr : fam(i) = "4") => q.ipv4
+       /\ (\E i \in 1..r.naddr : fam(i) = "6") => q.ipv6
+       /\ r.naddr = 0 => (~q.ipv4 /\ ~q.ipv6), cls),
+     R("X01", "goodversion_is_0_9_58_to_99", PlainVersion(v), q.goodversion = GoodVersion(v), cls),
+     R("X01", "goodversion_needs_three_parts", Len(VersionParts(v)) # 3, ~q.goodversion, cls),
+     R("X01", "goodversion_false_iff_error", TRUE, q.goodversion = ~q.goodversion_err, cls) >>
+
 JRInfoAcc(fn, in, rr, e, cls) ==
   LET r == RefRouterInfo(in)  a == rr.acc
       AddrEndOf(i) == IF i < r.naddr THEN r.addrStarts[i + 1] ELSE r.addrEnd IN
@@ -65,7 +93,11 @@ JRInfoAcc(fn, in, rr, e, cls) ==
      R("C09", "no_prohibited_router_identity", rr.ok /\ a.st >= 0, ~RouterProhibited(a.st, a.ct), cls),
      R("C09", "permitted_supported_accepted", r.ok, rr.ok, cls),
      R("C07", "identhash_is_sha256_of_identity_bytes", r.ok /\ rr.ok /\ "L" \in DOMAIN e /\ "sha" \in DOMAIN e.r /\ e.L = r.id.consumed,
-       a.identhash_ok /\ a.identhash = e.r.sha, cls) >>
+       a.identhash_ok /\ a.identhash = e.r.sha, cls),
+     \* the caps / version accessors expose exactly the encoded option values (no length prefix, nothing stripped)
+     R("C02", "router_info_caps_and_version_are_option_values", r.ok /\ rr.ok /\ "caps" \in DOMAIN a,
+       a.caps = OptVal(r.optPairs, KCaps) /\ a.version = OptVal(r.optPairs, KVersion), cls) >>
+  \o (IF r.ok /\ rr.ok /\ "q" \in DOMAIN a THEN JRInfoQueries(in, r, a, cls) ELSE << >>)
 
 LeasesMatch(al, in, off, n, len) == Len(al) = n /\ \A i \in 1..n : al[i].bytes = Slice(in, off + (i - 1) * len, len)
 JLSAcc(fn, in, rr, cls) ==
